@@ -230,10 +230,11 @@ structure Cfg where
   scanRegenDefined : Bool       -- Scan.regenerate returns instead of raising
   condDiscardVisible : Bool     -- Cond.update's discard holds the visible old values
   vmapEmptyConstraint : Bool    -- Vmap.generate accepts None / {} when the axis size is inferred
+  condUpdateFill : Bool         -- Cond.update completes the constraint with the VISIBLE old choices
   deriving Repr, DecidableEq
 
-def Cfg.asis : Cfg := ⟨false, false, false, false⟩
-def Cfg.spec : Cfg := ⟨true, true, true, true⟩
+def Cfg.asis : Cfg := ⟨false, false, false, false, false⟩
+def Cfg.spec : Cfg := ⟨true, true, true, true, true⟩
 
 /-- lane `i` of the argument list of a Vmap call -/
 def laneArgs : List Bool → List Val → Nat → List Val
@@ -413,6 +414,25 @@ mutual
           pure (.cons k v r)
 end
 
+/- `_keep_visible(visible, x)` of `Cond.update` (repaired code): the constraint completed with the
+   visible old choices - recursive on dicts (`{**visible, **{k: keep(visible.get(k), v)}}`),
+   any other value of the constraint wins outright; vectorised sub-maps lane by lane. -/
+mutual
+  def CM.fill : CM → CM → CM
+    | .node vis, .node x => .node (CML.fill vis x)
+    | .lanes vis, .lanes x => .lanes (CML.fillLanes vis x)
+    | _, x => x
+  def CML.fill : CML → CML → CML
+    | .nil, x => x
+    | .cons k v rest, x =>
+      match x.find? k with
+      | some xv => .cons k (CM.fill v xv) (CML.fill rest (x.erase k))
+      | none => .cons k v (CML.fill rest x)
+  def CML.fillLanes : CML → CML → CML
+    | .cons k v rest, .cons _ xv xrest => .cons k (CM.fill v xv) (CML.fillLanes rest xrest)
+    | _, x => x
+end
+
 /-- discards of a list of lanes / steps: `none` entries are kept positionally as empty nodes
     only when some lane has a discard (a vectorised discard is one pytree) -/
 def lanesDiscard (ds : List (Option CM)) : Option CM :=
@@ -466,7 +486,12 @@ mutual
             pure ((t, w, d), t.retval.fst)) (args.getD 0 .nil) 0 (old.toList.zip xs)
         pure (.scan (TrL.ofList (rs.map (·.1))) c, sumR (rs.map (·.2.1)), lanesDiscard (rs.map (·.2.2)))
     | .scan _ _, _, _, _ => none
-    | .cond t f, .cond cOld a b, x, args => do
+    | .cond t f, .cond cOld a b, x0, args => do
+        -- repaired code: addresses the constraint does not mention keep their VISIBLE old value
+        let x ← (if cfg.condUpdateFill then
+                    (Tr.cond cOld a b).choices.map fun vis =>
+                      some (match x0 with | none => vis | some xc => CM.fill vis xc)
+                  else some x0)
         let (a', w, d) ← t.update a x (args.drop 1)
         let (b', w', d') ← f.update b x (args.drop 1)
         let c := (args.getD 0 .nil).truthy
